@@ -4,6 +4,7 @@ import json, os, sys, time
 from .frontend import (AnalysisBroken, QUICK_CONFIGS, THOROUGH_CONFIGS, load_facts, VERIF)
 from .core.program import Program, fmt_atom, fmt_term
 from .core.callgraph import CallGraph
+from .core.inline import inline_all, keep_names
 
 KNOWN_FILE = os.path.join(VERIF, "known_findings.json")
 EVIDENCE_DIR = os.path.join(VERIF, "evidence")
@@ -21,6 +22,10 @@ class Config:
     def __init__(self, name):
         self.name = name
         facts = load_facts(name)
+        if os.environ.get("CJET_SA_NO_INLINE") != "1":
+            self.inlined = inline_all(facts, keep_names(VERIF))
+        else:
+            self.inlined = []
         self.P = Program(facts)
         self.cg = CallGraph(self.P)
         bad = [i for i in self.cg.unresolved if self.P.own(i.fn)]
